@@ -1,12 +1,13 @@
 // C33  The prime sieve yields exactly the primes after any call history -- E2 operation histories (DESIGN 5 C33)
 //
 // Every sequence of <= D operations from a 27-op menu is executed on the real, process-global Sieve starting
-// from its initial state (and from four fixed prefix histories that pre-set clear=false / a small segment /
+// from its initial state (and from five fixed prefix histories that pre-set clear=false / a small segment /
 // a pre-grown cache).  Each generate_primes result is compared with a reference prime table, each iterator
 // value with the prime sequence; ASan/UBSan reports abort the worker and are violations.  Histories are only
 // extended from prefixes that executed cleanly (a crashed process has no successor state).
 #include "common.h"
 #include "key.h"
+#include <sys/prctl.h>
 using namespace verif;
 
 // ------------------------------------------------------------------ reference primes
@@ -294,7 +295,7 @@ struct Report {
     int status = 0;
 };
 // run `work` in a child with stderr captured and parse the sanitizer report
-static Report capture_report(const std::function<void()> &work)
+static Report capture_report(const std::function<void()> &work, double limit_s = 40)
 {
     Report rp;
     char path[] = "/tmp/verif-c33-XXXXXX";
@@ -305,15 +306,17 @@ static Report capture_report(const std::function<void()> &work)
     fflush(stderr);
     pid_t p = fork();
     if (p == 0) {
+        prctl(PR_SET_PDEATHSIG, SIGKILL);
         dup2(fd, 2);
         work();
         _exit(0);
     }
     double t0 = now();
     while (waitpid(p, &rp.status, WNOHANG) != p) {
-        if (now() - t0 > 120) {
+        if (now() - t0 > limit_s) {
             kill(p, SIGKILL);
             waitpid(p, &rp.status, 0);
+            rp.status = -1; // hang
             break;
         }
         usleep(1000);
@@ -441,15 +444,17 @@ int main(int argc, char **argv)
     // ("fresh") is enumerated to a smaller depth and its seam is covered by the default-size list below.
     std::vector<Root> roots = {
         {"fresh", {}, 2, 3},
-        {"seg1", H({"set_sieve_size(1)"}), 3, 5},
+        {"seg1", H({"set_sieve_size(1)"}), 2, 4},
         {"keep+seg1", H({"set_clear(false)", "set_sieve_size(1)"}), 3, 5},
         {"keep+seg1+grown100", H({"set_clear(false)", "set_sieve_size(1)", "gen(100)"}), 2, 4},
         {"keep+seg1+grown16512", H({"set_clear(false)", "set_sieve_size(1)", "gen(16512)"}), 2, 3},
+        {"seg1+iter15", H({"set_sieve_size(1)", "it=iterator(0)", "it.next*15"}), 2, 3}, // a live iterator whose index is beyond the initial cache
     };
     std::map<std::string, std::string> shape_memo; // crash shape -> signature
     std::map<std::string, std::string> shape_detail;
     // dead[r][len] = codes of histories of that length (after root r) that crashed or violated: never extended
     std::vector<std::vector<std::unordered_set<long long>>> dead(roots.size(), std::vector<std::unordered_set<long long>>(8));
+    std::set<int> risky_ops;
     std::vector<int> completed(roots.size(), 0);
     std::vector<bool> stopped(roots.size(), false);
 
@@ -504,16 +509,9 @@ int main(int argc, char **argv)
         cs.n = n;
         cs.hang_s = 60;
         cs.counter_names = {"histories_executed", "skipped_prefix_crashed_or_violated", "skipped_inapplicable_iterator_op", "generate_primes_calls", "next_prime_calls",
-                            "iterator_limit_sentinels", "iterator_cached_primes_beyond_limit", "reset_failed"};
+                            "iterator_limit_sentinels", "iterator_cached_primes_beyond_limit", "reset_failed", "probe_children", "probe_children_aborted"};
         cs.desc = [&](long long i) { return "[" + hstr(full_of(i)) + "]"; };
-        cs.body = [&](long long i, Ctx &c) {
-            int s = status(i);
-            if (s) {
-                c.count(s);
-                return;
-            }
-            quiet_worker();
-            Hist f = full_of(i);
+        auto run_and_report = [&](const Hist &f, long long i, Ctx &c) {
             std::string why;
             if (!reset_sieve(why)) {
                 c.count(7);
@@ -536,6 +534,39 @@ int main(int argc, char **argv)
             if (i % 5003 == 0)
                 c.sample("{\"history\":" + jstr(hstr(f)) + ",\"trace\":" + jstr(x.trace.substr(0, 200)) + ",\"ok\":" + (x.ok ? "true" : "false") + "}");
         };
+        cs.body = [&](long long i, Ctx &c) {
+            int s = status(i);
+            if (s) {
+                c.count(s);
+                return;
+            }
+            quiet_worker();
+            Hist f = full_of(i);
+            if (replaying() || !risky_ops.count(f.back())) {
+                run_and_report(f, i, c);
+                return;
+            }
+            // The last operation has aborted the process in an earlier layer: execute this history in a probe child of the
+            // worker, so that a sanitizer abort costs one process instead of a worker respawn plus a re-run by the parent.
+            // (Only a cost optimisation: histories that crash unexpectedly are still caught by the case runner.)
+            fflush(c.out);
+            Report rp = capture_report([&]() {
+                run_and_report(f, i, c);
+                fflush(c.out);
+            });
+            c.count(8);
+            if (WIFEXITED(rp.status) && WEXITSTATUS(rp.status) == 0)
+                return;
+            c.count(9);
+            c.eval(f.size());
+            c.count(0);
+            std::string sig = rp.status == -1 ? "hang:" + OPS[f.back()].name
+                              : !rp.kind.empty() ? rp.kind + ":" + api_of(OPS[f.back()])
+                              : WIFSIGNALED(rp.status) ? std::string("signal:") + strsignal(WTERMSIG(rp.status)) + ":" + api_of(OPS[f.back()])
+                                                       : "exit:" + std::to_string(WEXITSTATUS(rp.status)) + ":" + api_of(OPS[f.back()]);
+            c.outcome("abort:" + sig);
+            c.violation(sig, "process aborted (" + (rp.access.empty() ? std::string("no sanitizer access line") : rp.access) + ") in history [" + hstr(f) + "]");
+        };
         cs.crash_sig = [&](long long i, const std::string &oc) {
             Hist f = full_of(i);
             if (oc == "hang")
@@ -557,8 +588,10 @@ int main(int argc, char **argv)
         if (replaying())
             return;
         printf("LAYER %s indices=%lld crashed_or_violated=%zu wall=%.1fs\n", cs.name.c_str(), n, cs.bad.size(), now() - t_layer);
-        for (long long b : cs.bad)
+        for (long long b : cs.bad) {
             dead[r][d].insert(b);
+            risky_ops.insert(full_of(b).back()); // from now on histories ending in this operation run in a probe child
+        }
         if (R.counters.count(cs.name + ":cut_by_deadline")) {
             stopped[r] = true;
             return;
@@ -602,7 +635,7 @@ int main(int argc, char **argv)
                 s += (t ? "; " : "") + std::string("gen(") + std::to_string(ls[t]) + ")";
             return s + "] (default sieve size 32)";
         };
-        cs.body = [&, hist](long long i, Ctx &c) {
+        auto direct = [&, hist](long long i, Ctx &c) {
             bool keep;
             auto ls = hist(i, keep);
             std::string why;
@@ -628,6 +661,28 @@ int main(int argc, char **argv)
             }
             c.outcome("default:" + tr);
             reset_sieve(why);
+        };
+        cs.body = [&, direct](long long i, Ctx &c) {
+            if (replaying()) {
+                direct(i, c);
+                return;
+            }
+            // every default-size history runs in a probe child of the worker (5 of the 8 limits cross the seam and abort)
+            quiet_worker();
+            fflush(c.out);
+            Report rp = capture_report(
+                [&]() {
+                    direct(i, c);
+                    fflush(c.out);
+                },
+                100);
+            if (WIFEXITED(rp.status) && WEXITSTATUS(rp.status) == 0)
+                return;
+            c.eval();
+            c.nontrivial();
+            std::string sig = (rp.status == -1 ? std::string("hang") : rp.kind.empty() ? std::string("crash") : rp.kind) + ":generate_primes:default-size";
+            c.outcome("abort:" + sig);
+            c.violation(sig, "process aborted (" + rp.access + ") in history " + cs.desc(i));
         };
         cs.crash_sig = [&, hist](long long i, const std::string &oc) {
             bool keep;
@@ -667,7 +722,7 @@ int main(int argc, char **argv)
         };
         std::vector<Hist> hs;
         for (auto &root : roots)
-            for (int d = 1; d <= 2; d++) {
+            for (int d = 1; d <= (root.h.size() <= 2 ? 2 : 1); d++) {
                 long long n = d == 1 ? NOPS : NOPS * NOPS;
                 for (long long i = 0; i < n; i++) {
                     Hist f = root.h;
